@@ -16,6 +16,7 @@ RULE = (
     "Non-trivial: at least one misbehaving client and one good client that connected after it. Spec oracle: every good "
     "client completes; established traffic continues; exactly one AcceptFailed per handshake that failed (closed / "
     "garbage) and none for a merely silent one; one Accepted per good client."
+    " Family replay-stall: a bound SUB socket with a subscription set larger than the transport's buffers; one or two clients complete their side of the handshake and never read — the next client is told the whole set (`rawdrain`), registered, its messages are received, and a further subscribe call returns."
 )
 ASSUMPTIONS = ["PARTIAL: locality is proved on the model; that the code runs ONE TASK PER CONNECTION is observed (good clients complete within the deadline)",
                "`Disconnected` monitor events are not compared (they depend on when a socket looks at a departed probe)"]
@@ -110,6 +111,20 @@ def cases(tier, rng):
     for ms in ((6500,) if tier == "quick" else (6500, 31000)):
         out.append(build("PULL", "tcp4", [20], "close", n, f"long-stall-{ms}", stall_ms=ms))
         n += 1
+    # a client that completes ITS side of the handshake and then stops READING: a SUB socket replays its subscription set
+    # to a new peer before registering it; with a set larger than the transport's buffers that connection stays in the
+    # handshake.  It delays only itself: the next client is accepted, told the set, registered, its messages arrive, and
+    # the application can go on changing the subscription set
+    for tr in (["tcp4", "ipc"] if "ipc" in trs else ["tcp4"]):
+        count, size = (16, 1 << 20) if tr == "ipc" else (64, 1 << 20)
+        for stalled in (1, 2):
+            ops = ["sock 1 SUB", f"subbig 1 {count} {size}", f"bind 1 {tr}"]
+            for i in range(stalled):
+                ops += [f"rawconn {5 + i} ep#0", f"rawhs {5 + i} PUB", f"rawwait {5 + i} hs"]
+            ops += ["pause 200", "rawconn 2 ep#0", "rawhs 2 PUB", "rawwait 2 hs", f"rawdrain 2 {count * (size + 10)}",
+                    "rawmsg 2 6e6577", "recv 1", "subbig 1 1 3", "rawmsg 2 6e657732", "recv 1"]
+            out.append(Case(f"replay-stall-{tr}-{stalled}#{n}", "net", ops, ["replay-stall"]))
+            n += 1
     # connections ABORTED (RST) right after connect, in bursts: some resets arrive before the accept loop has taken the
     # connection (then the per-connection setup fails inside the accept loop itself) — each must fail only itself
     for t in (["PULL", "ROUTER"] if tier == "quick" else netgen.TYPES9):
@@ -141,6 +156,10 @@ def oracle(case, lines):
             return f"a well-behaved client's handshake did not complete: {l}"
         if w[0] == "recv" and not l.startswith("ok M["):
             return f"established / new traffic interrupted: {l}"
+        if w[0] == "rawdrain" and l != "drained":
+            return f"a well-behaved client was not told the subscription set while another connection stalled: {l}"
+        if w[0] == "subbig" and l != "ok":
+            return f"subscribe did not return while a connection stalled in its handshake: {l}"
         if w[0] == "rawwait" and w[2] == "msg" and not l.startswith("M["):
             return f"outgoing traffic interrupted: {l}"
         if w[0] == "events" and case.expect:
